@@ -118,7 +118,7 @@ theorem deliver_action (t : Table) (dest : Bytes) (e : Env) :
 theorem forward_sent {cfg ic nn t source e d e'}
     (h : (forward cfg ic nn t source e).action = .enqueue d e' ∨
          (forward cfg ic nn t source e).action = .drop d e') :
-    route cfg ic nn source e = .send d e' := by
+    route cfg ic (nnEff cfg nn) source e = .send d e' := by
   unfold forward at h
   split at h
   · simp at h
@@ -130,7 +130,7 @@ theorem forward_sent {cfg ic nn t source e d e'}
 
 theorem forward_panic {cfg ic nn t source e w}
     (h : (forward cfg ic nn t source e).action = .panic w) :
-    route cfg ic nn source e = .panic w := by
+    route cfg ic (nnEff cfg nn) source e = .panic w := by
   unfold forward at h
   split at h
   · simp at h
@@ -600,7 +600,7 @@ theorem inv_cmdRpc {cfg : Cfg} {s s' : State} {i ic nn} (hi : Inv cfg s)
     cases hp : s.panicked with
     | none => rfl
     | some w => simp_all
-  cases hroute : route cfg (fun _ => ic) nn c.name e with
+  cases hroute : route cfg (fun _ => ic) (nnEff cfg nn) c.name e with
   | ignore =>
     simp only [forward, hroute] at hs; subst hs
     exact inv_cmd_nosend hi hc hr (Or.inl rfl) rfl rfl rfl (by simp)
